@@ -245,7 +245,10 @@ class Automaton:
         if t.op.startswith("mutator:") and t.dst == "FREED":
             self.problems.append(("S1", t.op, "mutator operation frees an object", self.path_to(t.src)))
         if t.op == "collector:sweep_one" and t.dst == "FREED" and col != "W":
-            self.problems.append(("S1", t.op, "sweep frees a %s object" % col, self.path_to(t.src)))
+            # a weakly marked object is not strongly reachable: releasing its block breaks the weak-pointer
+            # clause (C05, invariant S1w), not reachability-safety (C01, S1)
+            self.problems.append(("S1w" if col == "WW" else "S1", t.op, "sweep frees a %s object%s" % (
+                col, " (reachable weak pointers dangle)" if col == "WW" else ""), self.path_to(t.src)))
         if t.op == "mutator:upgrade":
             rets = {o.ret for o in t.row.outs}
             if 1 in rets and ph == "Sweep" and reg == "pend" and col != "B":
